@@ -209,11 +209,17 @@ func runFwCase(c fwCase, base string) (mis []fwMis, info map[string]any) {
 				}
 				curContent = "empty"
 			case "write":
-				f, err := os.OpenFile(path, os.O_WRONLY|os.O_TRUNC, 0o644)
+				// one write system call, as in the model (truncation is an operation of its own there): a rewrite with content
+				// of the same length raises exactly one event
+				f, err := os.OpenFile(path, os.O_WRONLY, 0o644)
 				if err != nil {
 					panic(err)
 				}
-				f.WriteString(text)
+				st, _ := f.Stat()
+				f.WriteAt([]byte(text), 0)
+				if st != nil && st.Size() != int64(len(text)) {
+					f.Truncate(int64(len(text)))
+				}
 				f.Close()
 				curContent = op.C
 			case "tmp":
